@@ -34,7 +34,7 @@ def bystanders(rng, n, allow_spin=False, prefix="b"):
         if fl == "threading":
             steps = rng.choice([[["hb", 0.5, None]], [["block"]], [["sleep", 0.2], ["return", "none"]], [["hb", 0.25, 3]]])
         else:
-            choices = [[["hb", 0.5, None]], [["block"]], [["park"]], [["sleep", 0.2], ["return", "none"]], [["spin", 3], ["hb", 1.0, None]]]
+            choices = [[["hb", 0.5, None]], [["block"]], [["park"]], [["sleep", 0.2], ["return", "none"]], [["spin", 3], ["hb", 1.0, None]], [["swallow", rng.choice([1, 2])]]]
             if allow_spin:
                 choices.append([["spin-forever"]])
             steps = rng.choice(choices)
